@@ -44,7 +44,7 @@ CLAIMED = {
     'C11': ('model_checking', 'TLC model checking of TimePattern over all 15851 patterns + trace validation of compiler/VM observations',
             'Model level: TLC checks on all 15 851 well-formed patterns that the manual\'s field rule is exactly satisfiability. '
             'Code level: every well-formed pattern and thousands of malformed strings are offered to the real compiler as '
-            '`time at p`; accepted ones are run and the minute set at the clock interface recorded; pairs/triples joined by `or` '
+            '`time at p` - as a literal and as the value of a macro (`define T p ... time at T`) -; accepted ones are run and the minute set at the clock interface recorded; pairs/triples joined by `or` '
             '(exhaustive over a reduced alphabet) and order-of-use histories with macros and loops likewise; TLC decides every row '
             '(spec/TraceTimePattern.tla). The wait itself: the Machine\'s pattern object is handed to a real Clock.wait_until over a wall '
             'clock that moves on with every reading (patterns around the turn of the hour/day, waits starting inside a matching minute); '
@@ -62,7 +62,7 @@ CLAIMED = {
             'table and formulas preserve the transmitted colour (as colours when rgb is involved), duration and delay, never touch '
             'kelvin, rewrite only the listed settings and are the identity for the mode in force. Code level: (a) the same settings '
             'followed by set/on, once behind a chain of 1..4 `units` switches and once without, are run on the real pipeline and every '
-            'pair of transmitted colour/duration/delay is a row decided by TLC (within one raw unit); (b) scripts interleaving '
+            'pair of transmitted colour/duration/delay (or pending time-of-day wait) is a row decided by TLC (within one raw unit); (b) scripts interleaving '
             'switches, settings and prints of every register are validated against Lang.tla/Registers.SwitchUnits.',
             'Grid points whose exact conversion does not fit 32-bit rationals are not decided (counted). After rgb->raw the three '
             'rewritten colour settings may be integers or not (undocumented): their print is not compared, the pairs cover them.',
@@ -90,7 +90,7 @@ CLAIMED = {
             'being stopped at instruction k, and followed by a different job in the same world; each execution is validated by TLC '
             'against Lang.tla starting from Lang\'s initial state, and the compiled program is compared before/after. Histories also run '
             'through one ScriptJob.load_string object, after a failed run of the same job, and after a stop request that arrived just as '
-            'the previous run finished (through Agent._execute_and_call).',
+            'the previous run finished (through Agent._execute_and_call), and after a stop request made while the job was idle. Histories contain calls of built-in functions.',
             'Stops are injected by wrapping Machine._fn_table. Thread-level effects of stop on the real clock are C09/C10.',
             'DESIGN.md section 6, C17'),
     'C13': ('model_checking', 'TLC-generated discovery/expiry histories (LightDir.tla) replayed into the real LightSet; every getter compared by TLC after every step',
@@ -111,7 +111,7 @@ CLAIMED = {
             'harness/detsched.py (baton scheduler; switch points at every source line of job_control.py and every lock/thread '
             'operation); schedules from bounded-preemption DFS and seeded random walks; every execution (call/return per client, '
             'body start/end, is_running samples, has_jobs at quiescence) is validated by TLC against the abstract controller '
-            'TraceJobQueue.tla, which infers where each add/insert took effect.',
+            'TraceJobQueue.tla, which infers where each add/insert/clear took effect (plans with clear_queue are run against the code only; the PlusCal model has no clear).',
             'Lock acquisition is assumed never to time out. Sub-statement atomicity (one source line) is assumed, as the code does.',
             'DESIGN.md section 6, C08'),
     'C10': ('model_checking', 'TLC trace validation (TraceClock.tla) of the real Clock running on real threads under a deterministic scheduler with virtual time',
@@ -120,7 +120,7 @@ CLAIMED = {
             're-runs after stop; schedules come from bounded-preemption DFS with switch points at every source line of clock.py '
             'and from seeded random walks. Every execution - start, each tick and whether it found the script waiting, call/return '
             'instants of each wait - is validated by TLC against TraceClock.tla (NeverEarly, AtOnceWhenBehind, FirstTickWaiting, '
-            'TimeAtRestarts), including clocks whose ticks are more than a second apart. Machine level: scripts in the three unit modes '
+            'TimeAtRestarts), including clocks whose ticks are more than a second apart and a clock with tick length 0 (its thread spins; steps of it are given a virtual cost; clause R.spin). Machine level: scripts in the three unit modes '
             'whose time value serves several waits across unit switches; every request made of the clock is decided by TraceUnits.DelayOk.',
             'Virtual time advances only when all threads are blocked or sleeping; a weak-fairness bound pre-empts a spinning thread. '
             'After a time-of-day wait any origin between the awaited instant and the noticing tick is accepted.',
@@ -154,7 +154,7 @@ CLAIMED = {
     'C12': ('model_checking', 'fault plans (exhaustive for small scripts) replayed into the real pipeline over a fault-injecting network; TLC validates each run against TraceFaults.tla',
             'A fault plan gives every request (device, request kind, statement) 0, 1, 2 or "never" unanswered attempts: every plan for six '
             'scripts of up to 4 requests, plus sampled plans for longer scripts that mix unknown lights/groups/locations and lights '
-            'without the zone/matrix capability. Each (script, plan) runs on the real retry decorators / LightSet / Machine over SimLan, '
+            'without the zone/matrix capability, or whose target is a variable holding a name or a number. Each (script, plan) runs on the real retry decorators / LightSet / Machine over SimLan, '
             'and once fault-free (self-composition). TLC checks per record: at most three attempts per request, abandoned requests '
             'logged, script finished, healthy devices received exactly the fault-free traffic, nothing sent to unaddressed devices. '
             'Discovery plans (failing broadcast, device silent on label/group/location/features, multizone silent on zone query, '
@@ -188,7 +188,7 @@ CLAIMED = {
     'C06': ('exploration', 'generated inputs (token, expression and statement soup, deep nesting, mutants, injected rule violations, noise, edge corpus) through the real compiler and VM; TLC decides each record against the two-outcome contract (TraceCompile.tla)',
             'Every input goes through ScriptJob.load_string (watchdog for hangs); accepted texts are executed by the real loader and VM '
             'over SimLan with an instruction budget. TLC checks per record: finishes, no exception, accept-with-program or '
-            'reject-with-line-numbered-message-and-no-program, injected rule violation => rejected, accepted => no internal VM fault, '
+            'reject-with-line-numbered-message-and-no-program, injected rule violation => rejected, accepted => every instruction of the program has the operands the VM dereferences and no internal VM fault, '
             'execute() never raises. The rule classes are the ones the property lists (break outside loop, assign to / redefine macro, '
             'undefined names, nested routine, missing end, unbalanced { [ (, malformed/impossible time pattern).',
             'Level exploration: for token soup, mutants and noise the specification contributes only the outcome contract; breadth '
